@@ -167,7 +167,7 @@ class Builder:
             setattr(obj, d.attr_name, v)
             exp.extend(self.expect_items(ccls, d, e))
         if hasattr(obj, "additional_avps") and self.rng.random() < 0.3:
-            extra, eb = self.extras(self.rng.randrange(1, 3))
+            extra, eb = self.extras(self.rng.randrange(1, 3), ccls)
             obj.additional_avps = list(obj.additional_avps) + extra
             exp.extend(eb)
         return obj, exp
@@ -185,13 +185,22 @@ class Builder:
                 out.append((d.avp_code, d.vendor_id, fl, tuple(sorted(e[1], key=repr))))
         return out
 
-    def extras(self, n):
-        """Undeclared extra AVPs (unknown codes so that no class declares them)."""
+    def extras(self, n, cls=None):
+        """Undeclared extra AVPs: unknown codes, or - half of the time when the class is given - the *code* of
+        one of its declared attributes under a vendor the class does not declare it for."""
         from diameter.message.avp import Avp
         objs, exp = [], []
+        declared = {(d.avp_code, d.vendor_id or 0) for d in getattr(cls, "avp_def", ())} if cls is not None else set()
         for _ in range(n):
             code = self.rng.randrange(18000000, 18000050)
             vendor = self.rng.choice([0, 555555])
+            if declared and self.rng.random() < 0.5:
+                c, v = self.rng.choice(sorted(declared))
+                # only (code, vendor) pairs the dictionary does not know: the payload is opaque bytes
+                cand = [x for x in (555555, 666666, 0) if (c, x) not in declared and self.md.L.dict_lookup(c, x) is None]
+                if cand:
+                    code, vendor = c, self.rng.choice(cand)
+                    self.colliding_extras = getattr(self, "colliding_extras", 0) + 1
             fl = self.rng.choice([0, 0x40, 0x20])
             payload = self.rng.randbytes(self.rng.randrange(1, 10))
             objs.append(Avp(code, vendor, payload, fl))
@@ -283,11 +292,13 @@ class Dyn:
                 set_vals[d.attr_name] = (d, pre)
                 exp.extend(b.expect_items(cls, d, items))
         if n_extra:
-            objs, eb = b.extras(n_extra)
+            objs, eb = b.extras(n_extra, cls)
             for o in objs:
                 m.append_avp(o)
             exp.extend(eb)
             self.cov["with_extras"] += 1
+            self.cov["extras_with_declared_code_other_vendor"] = \
+                self.cov.get("extras_with_declared_code_other_vendor", 0) + getattr(b, "colliding_extras", 0)
         names = sorted(set_vals)
         self.evals += 1
         desc = {"class": cls.__name__, "case": label, "set": names[:12], "extras": n_extra}
